@@ -7,6 +7,6 @@ CONSTANTS
   Uris = {"u1"}
   MaxText = 2
   Dump = FALSE
-INVARIANTS Valid LawsHold FollowingPrecedingConverse TraverseConsistent AllVariantsExtendPlain LevelOrderIsPermutation StringValueCompositional EqualityLaws L2AxesRefine
+INVARIANTS Valid LawsHold FollowingPrecedingConverse TraverseConsistent AllVariantsExtendPlain LevelOrderIsPermutation StringValueCompositional EqualityLaws L2AxesRefine L2EqRefines
 CONSTRAINT TextBound
 CHECK_DEADLOCK FALSE
